@@ -58,8 +58,9 @@ def run(ctx, proof):
     reps = 2 if ctx.quick else 8
     for comp in comps_run:
         for klass in (["sa", "sam", "arbitrary"]):
-            for n in ([3, 4] if ctx.quick else [3, 4, 5]):
-                for _ in range(reps if n < 5 else max(1, reps // 2)):
+            heavy = comp in ("sam_apx_100", "sam_apx_1000")     # 100 / 1000 rounds per compute: fewer and smaller cases
+            for n in ([3, 4] if (ctx.quick or heavy) else [3, 4, 5]):
+                for _ in range((reps if n < 5 else max(1, reps // 2)) if not heavy else (2 if n == 3 else 1)):
                     v = any_game(rng, n, klass)
                     opt = games.optional_ids(n)
                     if n == 3:
